@@ -73,14 +73,13 @@ func InitTCC() {
 }
 
 func GetTCCResourceManagerInstance() *TCCResourceManager {
-	if tCCResourceManager == nil {
-		onceTCCResourceManager.Do(func() {
-			tCCResourceManager = &TCCResourceManager{
-				resourceManagerMap: sync.Map{},
-				rmRemoting:         rm.GetRMRemotingInstance(),
-			}
-		})
-	}
+	// (no unsynchronised nil check in front of the Once: that read races with the initialisation)
+	onceTCCResourceManager.Do(func() {
+		tCCResourceManager = &TCCResourceManager{
+			resourceManagerMap: sync.Map{},
+			rmRemoting:         rm.GetRMRemotingInstance(),
+		}
+	})
 	return tCCResourceManager
 }
 
